@@ -624,6 +624,38 @@ def db_sequence(job):
                                          key=["db-sequence"] + why[0],
                                          what="vector {} solved with {} at position {} of the history {} (select={} ranking={}): {}".format(
                                              want, name, pos, list(order), sel, rk, why[1])))
+    # the five charge variants of the vector through ONE imputer (one parallel_impute call), in
+    # ascending and descending charge order: every row must get a completion for its own vector
+    from synrbl.SynRuleImputer.synthetic_rule_imputer import SyntheticRuleImputer
+
+    rules = load_db("shipped")
+    by_smiles, _ = db_index("shipped")
+    for qs in ((QS, tuple(reversed(QS))) if q == 0 else ()):
+        items = []
+        for qq in qs:
+            f = dict(vt)
+            if qq:
+                f["Q"] = qq
+            items.append({"id": str(len(items)), "reactants": "CC", "products": "CC", "Unbalance": "Products",
+                          "Diff_formula": f, "carbon_balance_check": "balanced"})
+        try:
+            outs = SyntheticRuleImputer(rule_dict=rules, select="all", ranking="ion_priority").parallel_impute(items, n_jobs=1)
+        except Exception:
+            continue
+        n += len(items)
+        for qq, o in zip(qs, outs):
+            added = o.get("products", "CC")[len("CC"):].lstrip(".")
+            if not added:
+                continue
+            got = oracle.comp(added) or {}
+            got.setdefault("Q", 0)
+            w = dict(vt)
+            w["Q"] = qq
+            if {k: v for k, v in got.items() if v} != {k: v for k, v in w.items() if v}:
+                bads.append(dict(sub="db-sequence", case={"vector": dict(vt), "q": q}, observed=added, expected=w,
+                                 key=["db-sequence", "impute-batch", "sum"],
+                                 what="one parallel_impute call over the charge variants {} of {}: the row with Q={} got {} ({})".format(
+                                     list(qs), dict(vt), qq, added, got)))
     return n, bads
 
 
